@@ -265,3 +265,28 @@ PROPS.update({
                     'sequential history, alone on a fresh container, and inside a concurrent batch; all three equal the model.',
     ),
 })
+PROPS.update({
+    'C15': dict(
+        domains=[dict(name='resp', quick=24000, thorough=600000)],
+        verdicts=['c15_*'],
+        project={'resp': proj_allow},
+        prop_files=['props/C15.v'],
+        trivial_classes=('empty', 'not-wf'),
+        rule='histories of 0-6 calls on one restful.Response (Write, WriteHeader, WriteErrorString/WriteError, WriteEntity / '
+             'WriteHeaderAndEntity / WriteServiceError / WriteAsJson / WriteAsXml / WriteJson / WriteHeaderAndJson/Xml with '
+             'struct, large (>4 kB, several encoder chunks), slice, nil and unmarshalable values, PrettyPrint toggles) over a '
+             'counting writer whose k-th Write call accepts a scripted number of bytes and may fail, optionally with a gzip '
+             'CompressingResponseWriter in between; driven directly (NewResponse) or by a route function inside a container with '
+             'StatusCode()/ContentLength() read by a container filter after the handler; 65% set the status once first, 15% only '
+             'write, 20% arbitrary (mostly outside the premise); distinct = distinct case text; non-trivial = non-empty history '
+             'inside the premise',
+        trusted_base=['encoding/json and encoding/xml: what they hand to Response.Write (chunks, or failure) is an input computed '
+                      'by a dry run against the standard library', 'compress/gzip accepts every byte written to it while open',
+                      'net/http ResponseWriter contract: first WriteHeader wins, Write commits 200'],
+        assumptions=['premise of the property made precise: the status is set at most once and before any Write CALL (an empty '
+                     'Write also commits 200 in net/http)', 'status arguments are valid HTTP codes (>= 100)'],
+        explanation='Theorems Props.C15 / C15_length_invariant / C15_errors on the Coq model of response.go + writeJSON/writeXML; '
+                    'per-call returned errors, StatusCode(), ContentLength() and what the underlying writer received compared with '
+                    'the model; the three clauses evaluated on the implementation\'s own numbers.',
+    ),
+})
